@@ -344,6 +344,9 @@ pub struct LightCarryCircuit {
     pub inner: Option<crate::gadget::LightVerifierCircuit>,
     pub shape: CarryShape,
     pub carried: Value<Accumulator<Light>>,
+    /// `Some(b)`: after witnessing the carried accumulator, `AssignedAccumulator::scale_by_bit`
+    /// with a witnessed bit `b` (the genesis switch of `zk_stdlib/examples/ivc.rs`).
+    pub scale_bit: Option<bool>,
 }
 
 impl Circuit<F> for LightCarryCircuit {
@@ -386,7 +389,7 @@ impl Circuit<F> for LightCarryCircuit {
         };
 
         // exactly what the IVC example does to carry the accumulator of the previous step
-        let carried = AssignedAccumulator::<Light>::assign(
+        let mut carried = AssignedAccumulator::<Light>::assign(
             &mut layouter,
             &curve_chip,
             &scalar_chip,
@@ -396,6 +399,10 @@ impl Circuit<F> for LightCarryCircuit {
             &self.shape.rhs_names,
             self.carried.clone(),
         )?;
+        if let Some(b) = self.scale_bit {
+            let bit: midnight_circuits::types::AssignedBit<F> = scalar_chip.assign(&mut layouter, Value::known(b))?;
+            AssignedAccumulator::<Light>::scale_by_bit(&mut layouter, &scalar_chip, &bit, &mut carried)?;
+        }
         {
             let cells = PublicInputInstructions::<F, AssignedAccumulator<Light>>::as_public_input(&verifier, &mut layouter, &carried)?;
             let vals: Value<Vec<F>> = Value::from_iter(cells.iter().map(|c| c.value().copied()));
@@ -615,7 +622,7 @@ pub fn run_light(ctx: &mut Ctx, setup: &mut Setup, nf: usize, np: usize, seed: u
 
     // ---- (A) the carried accumulator alone
     let pi = AssignedAccumulator::<Light>::as_public_input(&carried);
-    let circuit = LightCarryCircuit { inner: None, shape: shape.clone(), carried: Value::known(carried.clone()) };
+    let circuit = LightCarryCircuit { inner: None, shape: shape.clone(), carried: Value::known(carried.clone()), scale_bit: None };
     let Some(k_a) = find_k(6, 14, &circuit, &pi) else {
         let e = mock(14, &circuit, pi.clone()).err();
         ctx.oracle_fail(&format!("carry-fails:{key}"), "the circuit that witnesses a carried accumulator cannot be synthesised", json!({"case": desc, "error": e}));
@@ -658,6 +665,40 @@ pub fn run_light(ctx: &mut Ctx, setup: &mut Setup, nf: usize, np: usize, seed: u
             Err(e) => ctx.oracle_fail(&format!("carry-fails:{key}"), "the carry circuit fails to synthesise", json!({"case": desc, "error": e})),
         }
     }
+    // ---- (A') AssignedAccumulator::scale_by_bit on the carried accumulator, bit = 1 and bit = 0:
+    // the circuit must expose bit * acc (every scalar of BOTH sides, variable and fixed-base)
+    for b in [true, false] {
+        let sc = if b { F::ONE } else { F::ZERO };
+        let scale = |m: &Msm<Light>| Msm::<Light>::new(
+            &m.bases(),
+            &m.scalars().iter().map(|s| *s * sc).collect::<Vec<_>>(),
+            &m.fixed_base_scalars().iter().map(|(k, v)| (k.clone(), *v * sc)).collect(),
+        );
+        let scaled = Accumulator::<Light>::new(scale(&carried.lhs()), scale(&carried.rhs()));
+        let scaled_view = acc_view::<Light>(&scaled);
+        let pi_s = AssignedAccumulator::<Light>::as_public_input(&scaled);
+        let circuit = LightCarryCircuit { inner: None, shape: shape.clone(), carried: Value::known(carried.clone()), scale_bit: Some(b) };
+        ctx.count(&format!("carry:light:scale-by-bit={}", b as u8));
+        match mock(k_a + 1, &circuit, pi_s.clone()) {
+            Ok((ok, _)) => {
+                let in_view = take_pi("carried").and_then(|v| acc_of_light_pi(&v, &carried_view));
+                if let Some(v) = &in_view {
+                    ctx.case("acc-scale-bit", true, &format!("acc-scale-bit {} {}", b as u8, acc_text(&carried_view)), &acc_text(v));
+                }
+                if !ok || in_view.as_ref() != Some(&scaled_view) {
+                    ctx.oracle_fail(
+                        &format!("carry-scale-by-bit:{}", b as u8),
+                        "AssignedAccumulator::scale_by_bit: the accumulator the circuit holds after scaling by a bit is not bit * acc on both sides (for bit = 0 it must be the neutral accumulator)",
+                        json!({"case": desc, "bit": b, "satisfied_by_bit_times_acc": ok, "expected": acc_text(&scaled_view), "in_circuit": in_view.as_ref().map(acc_text)}),
+                    );
+                }
+                if !b && !scaled.check(&params.s_g2().into(), &fb) {
+                    ctx.oracle_fail("carry-scale-by-bit:neutral-check", "0 * acc does not satisfy Accumulator::check", json!({"case": desc}));
+                }
+            }
+            Err(e) => ctx.oracle_fail(&format!("carry-fails:{key}"), "the scale_by_bit circuit fails to synthesise", json!({"case": desc, "error": e})),
+        }
+    }
 
     // ---- (B) the IVC step: verify proof 2 in-circuit, accumulate with the carried accumulator
     let next_off = Accumulator::<Light>::accumulate(&[acc2.clone(), carried.clone()]);
@@ -671,6 +712,7 @@ pub fn run_light(ctx: &mut Ctx, setup: &mut Setup, nf: usize, np: usize, seed: u
         inner: Some(crate::gadget::light_circuit(&inner2, &inner2.insts, &inner2.commitments, &inner2.proof)),
         shape: shape.clone(),
         carried: Value::known(carried.clone()),
+        scale_bit: None,
     };
     let Some(k_b) = find_k(10, 17, &circuit, &pi) else {
         let e = mock(17, &circuit, pi.clone()).err();
